@@ -1,4 +1,4 @@
-//go:build verif
+//go:build verif && (c07 || allprops)
 
 package main
 
@@ -209,10 +209,4 @@ func init() {
 			}
 		}
 	}
-}
-
-func stripBiases(b J) J {
-	c := cloneJ(b)
-	delete(c, "biases")
-	return c
 }
